@@ -61,3 +61,34 @@ reg("C14", "E1 product sweep + edge relation",
     "oracle is relational (no expected values), with exactly the statement's exemptions.",
     "Trusted: the severity orders typed in from the specifications; CPython.",
     "DESIGN.md section 3, C14")
+
+reg("C06", "E1 relation sweep",
+    "explicit-state enumeration of the five substitution relations (edges baseline->variant) on "
+    "the real classes; differential oracle: the stated score slots are equal across every edge",
+    "For v2/v3 every base vector x every subset of the eligible metrics is enumerated for (a) and "
+    "(b); (d) full override x Hamming-1 (quick) / all 2,592 (thorough) base vectors; v4 relations "
+    "run on a base skeleton (quick) or all 104,976 base vectors (thorough), all 9,600 supplemental "
+    "spellings on a macrovector-covering set, all 2,048 Modified subsets on a small set.",
+    "Trusted: the tables of eligible metrics / equivalent values typed in from the specification; "
+    "CPython. v4 products larger than the stated sets are bounded (stated in evidence).",
+    "DESIGN.md section 3, C06")
+
+reg("C12", "E1 product sweep + token x vector product",
+    "explicit-state enumeration: round trip on product spaces; every (score token, vector part) "
+    "pair of a finite alphabet through from_rh_vector() against a nondeterministic RH model "
+    "(trace inclusion)",
+    "All v2 and v3 base vectors x all 101 representable scores, a v4 set covering every reachable "
+    "score x 101, plus 45 odd / padded / non-numeric / fuzzy tokens x score-covering and invalid "
+    "vector parts, and strings without '/'. Bounded by the token alphabet and vector sets (the "
+    "property quantifies over all strings).",
+    TRUST + " Where the statement does not fix the precedence of two applicable errors, or "
+    "delegates numeric-ness to the number parser, the model admits every reading.",
+    "DESIGN.md section 3, C12")
+
+reg("C15", "E1 product sweep",
+    "explicit-state enumeration of temporal x environmental spellings on the real CVSS2/CVSS3 "
+    "classes; oracle = the model's own parse, plus re-assembly differential",
+    "v2: all 180 x 5,250 spellings; v3: all 180 temporal spellings on every base vector, "
+    "environmental spellings with <=2 (quick) / <=3 (thorough) departures from 'absent', and in the "
+    "thorough tier the complete 30,000,000-point environmental spelling space on one base vector.",
+    TRUST, "DESIGN.md section 3, C15")
